@@ -34,6 +34,9 @@ class _TimeShim(object):
         return CURRENT.time()
 
     def sleep(self, dt):
+        if dt < 0:
+            # the real time.sleep() refuses this too; a stub that quietly accepts it hides the caller's mistake
+            raise ValueError('sleep length must be non-negative')
         k = CURRENT
         k.count('sleep')
         if k.current is None:
